@@ -130,6 +130,12 @@ FOCUS[10] = ("it RE-INTRODUCES, in a new guise, a defect that recent maintenance
              "the cases, special-case a fast path around it, change a neighbouring function so that the repaired path is bypassed for some inputs, undo the "
              "repair for one layout / one entry point / one direction only. Each of your three changes must relate to a DIFFERENT fix commit; name the commit "
              "in meta.json ('relates_to').")
+FOCUS[11] = ("it depends on HISTORY: a single call in a fresh process stays correct, and the break shows only after a particular sequence of operations "
+             "in one process - a type first used one way and then another (parsed then serialised, used as a field type then directly, with handlers then "
+             "without), a converter object reused after a conversion that FAILED or raised part-way, an error tree printed or inspected twice, an instance "
+             "copied / replaced / mutated and then serialised or compared, a class subclassed or parametrised AFTER its converter was first built, a handler "
+             "registered after first use, state left behind by an exception (a half-filled cache entry, a flag not reset), a generator or iterator consumed "
+             "twice, or two threads making the first use of a type at once. Say in meta.json exactly which sequence is needed.")
 FOCUS[4] = ("it lives in the region of the library named below and shows only under a narrow circumstance that a real user could still hit "
             "(one pass or one direction only, one member of a family, a second call, an unusual but legal input or option combination). "
             "REGION for this task: {region}. All three changes must be made inside that region; read it closely first and look for behaviour that the "
@@ -171,6 +177,10 @@ Before saving a change, verify yourself: tests still 218 passed with the change;
 
 Finish with a short report listing the three changes (one line each) and confirming the verification you did. If you cannot find three, deliver as many as you can.
 """
+        if rnd >= 11:
+            text += ("\nNOTE (this overrides the text above): time is short. Deliver exactly ONE change (directory k=1 only) - the best one you can find "
+                     "within roughly eight minutes of work; wherever the text above says three changes, read one. Run the test suite once at the end, not "
+                     "repeatedly.\n")
         open(os.path.join(pdir, pid + '.txt'), 'w').write(text)
     print('wrote', len(props), 'prompts to', pdir)
 
